@@ -1315,6 +1315,7 @@ def run(rep, tier):
     rep.guard("R6.1", "finish_block", lambda: finish_block_rule(rep))
     rep.guard("R6.1", "WitMap length", lambda: witmap_len(rep))
     rep.guard("R6.3", "GuestDeallocateVariant order", lambda: variant_free_order(rep, f, m))
+    rep.guard("R6.3", "one arm per case block", lambda: variant_arms(rep, f, m))
     rep.guard("R6.7", "census", lambda: census(rep, f, m))
     rep.guard("R6.8", "rooting of borrowed arguments", lambda: rooting(rep))
 
@@ -1456,24 +1457,18 @@ def finish_block_rule(rep):
 def variant_free_order(rep, f, m):
     arm = explicit_arm(m, "GuestDeallocateVariant")
     g = Gen(arm.body, arm_env(f, arm))
-    loops = [n for n in synq.walk(arm.body) if n.get("k") == "for"]
+    us = block_units(g, arm.body)
     ok = False
-    det = f"{len(loops)} loop(s)"
-    if len(loops) == 1:
-        lp = loops[0]
-        it = lp["iter"]
-        chain = []
-        while it.get("k") == "mcall":
-            chain.append(it["method"])
-            it = it["recv"]
-        root = g.binder(it["path"], pos(it)) if it.get("k") == "path" else None
-        drained = root is not None and root[1].get("init") is not None and "self.blocks" in render(root[1]["init"]) and \
-            synq.contains_call_named(root[1]["init"], ("drain", "split_off")) is not None
-        pat = lp["pat"]
+    det = f"{len(us)} per-block loop(s) over the drained blocks"
+    if len(us) == 1:
+        pat, body, ms, node = us[0]
         idx = pat["elems"][0].get("name") if pat.get("k") == "p_tuple" and len(pat["elems"]) == 2 else None
-        ok = drained and set(chain) <= {"into_iter", "iter", "enumerate"} and "enumerate" in chain and idx is not None and \
-            any(n.get("k") == "mcall" and n["method"] == "to_string" and render(n["recv"]) == idx for n in synq.walk(lp["body"]))
-        det = f"iterator chain {chain[::-1]}, index `{idx}`"
+        uses_index = idx is not None and (
+            any(n.get("k") == "mcall" and n["method"] == "to_string" and render(n["recv"]) == idx for n in synq.walk(body)) or
+            any(n.get("k") == "call" and [render(x).lstrip("&*") for x in n["args"]] == [idx] for n in synq.walk(body)) or
+            any(idx in [k for kd, k, ex, off in fm.hole_exprs() if ex is None] for fm in synq.fmts(body)))
+        ok = set(ms) <= ITER_OK - {"zip"} and "enumerate" in ms and uses_index
+        det = f"iterator adapters {sorted(set(ms))}, index `{idx}`"
     rep.ob("R6.3", "GuestDeallocateVariant: case block i is the match arm for discriminant i (blocks drained in emission order, "
                    "enumerated without a reordering adapter)", ok, det, f.loc(arm.node))
 
@@ -1489,3 +1484,231 @@ def witmap_len(rep):
                            "writes one entry per iterated element)", ok, render(g.body)[:80], g.loc())
             rep.saw(f"{RTMOD}::<{g.self_ty} as WitMap>::wit_map_len")
     rep.floor("R6.1", "rt: WitMap implementations", n, 2)
+
+
+# ---------------------------------------------------------------- one arm per case block (GuestDeallocateVariant and siblings)
+ITER_OK = {"into_iter", "iter", "enumerate", "zip", "map", "for_each", "collect", "cloned", "copied", "by_ref"}
+JUMPS = ("continue", "break", "return")
+
+
+def own_nodes(root):
+    """nodes of root that belong to its own control flow (nested closures / fn items are other bodies)"""
+    st = [root]
+    while st:
+        x = st.pop()
+        if isinstance(x, dict):
+            if x is not root and x.get("k") in ("closure", "item_stmt", "fn"):
+                continue
+            yield x
+            st.extend(v for v in x.values() if isinstance(v, (dict, list)))
+        elif isinstance(x, list):
+            st.extend(x)
+
+
+def chain_of(e):
+    ms = []
+    while e.get("k") == "mcall":
+        ms.append(e["method"])
+        e = e["recv"]
+    return ms, e
+
+
+def drained_root(g, e):
+    """is path e a local bound to blocks taken off self.blocks (drain / split_off)?"""
+    if e.get("k") != "path":
+        return False
+    b = g.binder(e["path"], pos(e))
+    return b is not None and b[1].get("init") is not None and "self.blocks" in render(b[1]["init"]) and \
+        synq.contains_call_named(b[1]["init"], ("drain", "split_off")) is not None
+
+
+def block_units(g, body):
+    """per-block code units of an arm: (pattern, unit body, adapter methods) for `for PAT in <drained>..` loops and for
+    `<drained>...map(|PAT| ..)` / `.for_each(|PAT| ..)` closures; zip arguments count as roots too"""
+    def roots(e):
+        ms, r = chain_of(e)
+        out = [r]
+        x = e
+        while x.get("k") == "mcall":
+            if x["method"] == "zip" and x["args"]:
+                out += roots(x["args"][0])[0]
+                ms += chain_of(x["args"][0])[0]
+            x = x["recv"]
+        return out, ms
+    units = []
+    for n in synq.walk(body):
+        if n.get("k") == "for":
+            rs, ms = roots(n["iter"])
+            if any(drained_root(g, r) for r in rs):
+                units.append((n["pat"], n["body"], ms, n))
+        elif n.get("k") == "mcall" and n["method"] in ("map", "for_each") and len(n["args"]) == 1 and n["args"][0].get("k") == "closure" \
+                and len(n["args"][0]["params"]) == 1:
+            rs, ms = roots(n["recv"])
+            if any(drained_root(g, r) for r in rs):
+                outer = [x["method"] for x in synq.walk(body) if x.get("k") == "mcall" and x is not n and
+                         any(y is n for y in recv_chain(x))]
+                units.append((n["args"][0]["params"][0], n["args"][0]["body"], ms + [n["method"]] + outer, n))
+    return units
+
+
+def recv_chain(x):
+    x = x["recv"]
+    while True:
+        yield x
+        if x.get("k") != "mcall":
+            return
+        x = x["recv"]
+
+
+def guarded_by(root, target):
+    """kinds of the control constructs of root's own flow that enclose target"""
+    def rec(n, acc):
+        if n is target:
+            return acc
+        if isinstance(n, dict):
+            if n is not root and n.get("k") in ("closure", "item_stmt", "fn"):
+                return None
+            a2 = acc + [n["k"]] if n.get("k") in ("if", "match", "for", "while", "loop") and n is not root else acc
+            for v in n.values():
+                if isinstance(v, (dict, list)):
+                    r = rec(v, a2)
+                    if r is not None:
+                        return r
+        elif isinstance(n, list):
+            for v in n:
+                r = rec(v, acc)
+                if r is not None:
+                    return r
+        return None
+    return rec(root, [])
+
+
+def single_expr(e):
+    while e is not None and e.get("k") == "block" and len(e["stmts"]) == 1 and e["stmts"][0].get("k") == "expr_stmt":
+        e = e["stmts"][0]["e"]
+    return e
+
+
+def resolve_choice(g, e, idx, depth=0):
+    """follow a pattern-text expression to the `if` that chooses it: through `let` binders and calls of a local helper
+    closure applied to the index.  Returns (if node, name of the index inside that scope) or (None, reason)"""
+    e = single_expr(e)
+    if e is None or depth > 6:
+        return None, "unresolved"
+    k = e.get("k")
+    if k == "ref" or (k == "mcall" and e["method"] in STRINGY_M and not e["args"]):
+        return resolve_choice(g, e["e"] if k == "ref" else e["recv"], idx, depth + 1)
+    if k == "if":
+        return e, idx
+    if k == "path" and "::" not in e["path"]:
+        b = g.binder(e["path"], pos(e))
+        if b is not None and b[1].get("init") is not None:
+            return resolve_choice(g, b[1]["init"], idx, depth + 1)
+        return None, f"`{e['path']}` is not a local with an initialiser"
+    if k == "call" and e["func"].get("k") == "path" and len(e["args"]) == 1:
+        b = g.binder(e["func"]["path"], pos(e))
+        a = e["args"][0]
+        while a.get("k") in ("ref", "unary"):
+            a = a["e"]
+        if b is not None and b[1].get("init") is not None and b[1]["init"].get("k") == "closure" and \
+                len(b[1]["init"]["params"]) == 1 and a.get("k") == "path" and a["path"] == idx:
+            cl = b[1]["init"]
+            pn = [x["name"] for x in synq.walk(cl["params"][0]) if x.get("k") == "p_ident"]
+            if len(pn) == 1:
+                return resolve_choice(g, cl["body"], pn[0], depth + 1)
+    return None, f"pattern text comes from `{render(e)[:60]}`"
+
+
+def is_index_text(e, idx):
+    e = single_expr(e)
+    if e is None:
+        return False
+    if e.get("k") == "mcall" and e["method"] == "to_string" and not e["args"]:
+        r = e["recv"]
+        while r.get("k") in ("ref", "unary"):
+            r = r["e"]
+        return r.get("k") == "path" and r["path"] == idx
+    if e.get("k") == "macro" and short(e["name"]) == "format":
+        fm = synq.Fmt(e)
+        hs = fm.hole_exprs() if fm.template is not None else []
+        if len(hs) == 1 and re.fullmatch(r"\{[^{}:]*\}", fm.template):
+            kind, key, ex, off = hs[0]
+            return (ex is None and key == idx) or (ex is not None and ex.get("k") == "path" and ex["path"] == idx)
+    return False
+
+
+def variant_arms(rep, f, m):
+    # every loop over case blocks visits every block (the three handlers that take one block per case off self.blocks)
+    nloops = 0
+    for name in ("VariantLower", "VariantLift", "GuestDeallocateVariant"):
+        arm = explicit_arm(m, name)
+        g = Gen(arm.body, arm_env(f, arm))
+        us = block_units(g, arm.body)
+        nloops += len(us)
+        for pat, body, ms, node in us:
+            jumps = sorted({n["k"] for n in own_nodes(body) if n.get("k") in JUMPS})
+            extra = sorted(set(ms) - ITER_OK)
+            rep.ob("R6.3", f"{name}: the code run per case block visits every block (no continue / break / return in it, no "
+                           "filtering or reordering iterator adapter)", not jumps and not extra, f"jumps {jumps}, adapters {extra}",
+                   f.loc(node))
+        rep.ob("R6.3", f"{name}: one per-block loop over the blocks taken off self.blocks", len(us) == 1, f"{len(us)}", f.loc(arm.node))
+    rep.floor("R6.3", "handlers looping over case blocks", nloops, 3)
+    # GuestDeallocateVariant: block i <-> arm `i => block`, `_` only for the last block
+    arm = explicit_arm(m, "GuestDeallocateVariant")
+    g = Gen(arm.body, arm_env(f, arm))
+    us = block_units(g, arm.body)
+    if len(us) != 1:
+        return
+    pat, body, ms, node = us[0]
+    loc = f.loc(node)
+    names = [e.get("name") if e.get("k") == "p_ident" else None for e in pat["elems"]] if pat.get("k") == "p_tuple" else []
+    if len(names) != 2 or None in names or "enumerate" not in ms:
+        rep.ob("R6.3", "GuestDeallocateVariant: the per-block code receives (index, block) from enumerate()", False, f"{names} {ms}", loc)
+        return
+    idx, blk = names
+    arms_ = [fm for n in own_nodes(body) if n.get("k") == "macro" for fm in [synq.Fmt(n)]
+             if short(n["name"]) in synq.FMT_FIRST | synq.FMT_SECOND and fm.template is not None and "=>" in fm.template]
+    ok = len(arms_) == 1
+    guards = guarded_by(body, arms_[0].node) if ok else None
+    rep.ob("R6.3", "GuestDeallocateVariant: each case block writes exactly one match arm, unconditionally (the only choice made per "
+                   "block is the arm's pattern)", ok and guards == [], f"{len(arms_)} arm template(s), enclosed by {guards}", loc)
+    if not ok:
+        return
+    fm = arms_[0]
+    mm = re.fullmatch(r"\s*\{([^{}]*)\}\s*=>\s*\{([^{}]*)\}\s*,?\s*", fm.template)
+    hs = {off: (kind, key, ex) for kind, key, ex, off in fm.hole_exprs()}
+    if not mm or len(hs) != 2:
+        rep.ob("R6.3", "GuestDeallocateVariant: the arm template is `<pattern> => <block>,`", False, fm.template.strip()[:60], loc)
+        return
+    offs = sorted(hs)
+
+    def hole_node(o):
+        kind, key, ex = hs[o]
+        return ex if ex is not None else {"k": "path", "path": key, "sp": fm.node.get("sp")}
+    pe, be = hole_node(offs[0]), hole_node(offs[1])
+    while be.get("k") in ("ref",):
+        be = be["e"]
+    rep.ob("R6.3", "GuestDeallocateVariant: the arm's body is the case block itself", be.get("k") == "path" and be["path"] == blk,
+           render(be), loc)
+    ifn, ix = resolve_choice(g, pe, idx)
+    ok = False
+    det = ix if ifn is None else ""
+    if ifn is not None:
+        c = ifn["cond"]
+        last = None
+        if c.get("k") == "binary" and c["op"] == "==":
+            for a_, b_ in ((c["l"], c["r"]), (c["r"], c["l"])):
+                while a_.get("k") in ("ref", "unary") and a_.get("op", "*") in ("*", "&"):
+                    a_ = a_["e"]
+                if a_.get("k") == "path" and a_["path"] == ix:
+                    last = strip_refs(g.canon(b_))
+        lm = re.fullmatch(r"(\$blocks|(%\d+)\.len\(\)) - 1", last or "")
+        last_ok = lm is not None and (lm.group(2) is None or any(tok == lm.group(2) and drained_root(g, {"k": "path", "path": nm, "sp": [10 ** 9, 0, 10 ** 9, 0]})
+                                                                 for act, nm, tok, b in g.entries))
+        then_txt = g.text(single_expr(ifn["then"])) if single_expr(ifn["then"]) is not None else None
+        els = single_expr(ifn.get("else"))
+        ok = last_ok and then_txt == "_" and els is not None and els.get("k") != "if" and is_index_text(els, ix) and \
+            not [n for n in own_nodes(ifn) if n.get("k") in JUMPS]
+        det = f"if {render(c)} -> `{then_txt}` else `{render(els)[:50] if els else None}` (last = `{stable(last or '?')}`)"
+    rep.ob("R6.3", "GuestDeallocateVariant: the pattern of block i is `_` only when i is the last block, and its own index i otherwise "
+                   "(a catch-all never stands in for an omitted case)", ok, det, loc)
